@@ -11,7 +11,7 @@
    what unbounded channels with one stage running after the other deliver; [compose_states] the final
    state of every stage (for lifecycle detection: the final lifecycle table). *)
 From Coq Require Import List NArith Bool Arith Permutation.
-From AdltV Require Import Pipe.Kahn Pipe.KahnProofs Pipe.Loss Pipe.LossProofs.
+From AdltV Require Import Pipe.Kahn Pipe.KahnProofs Pipe.Loss Pipe.LossProofs Pipe.Shared Pipe.SharedProofs.
 Import ListNotations.
 
 Section Statements.
@@ -208,6 +208,59 @@ Example C13_loss_nonvacuous :
   loss_run (kahn_of (z_lc 10 1000)) inp 3 = z_run (z_lc 10 1000) inp 3.
 Proof. cbv zeta. repeat split; vm_compute; reflexivity. Qed.
 
+(* ---------------------------------------------------------------------------------------------------------------
+   A stage that reads, out of band, state published by the stage in front of it (Pipe/Shared.v): the lifecycle table
+   (evmap) written by lifecycle detection and read by the time sort, the export plugin with lifecyclesToKeep, remote
+   clients -- when they GET a message.  The writer's run is a sequence of events [EPub t] (the readers' view becomes t)
+   and [ESend m]; the reader takes m from a FIFO of capacity cap (0 = rendezvous) at an arbitrary later moment and reads
+   [look cur m] in the view current at that moment; [sstep] = any interleaving. *)
+Section SharedStatements.
+  Context {msg tbl V : Type} (look : tbl -> msg -> V) (val : msg -> V).
+
+  (* side condition = C06's clause "a lifecycle is published before any message carrying it is sent" (and it stays so:
+     C06_visible_monotone): from the moment m is handed to the outflow every view answers m's look-up with [val m].
+     Then, for every capacity and every interleaving, every complete execution has looked every message up, in order,
+     with the same result: the composition is schedule independent although it is not a Kahn network *)
+  Theorem C13_lookups_schedule_independent cap t0 (evs : list (@ev msg tbl)) (s' : @sst msg tbl V) :
+    published_before_sent look val t0 evs ->
+    ssteps look cap (sinit t0 evs) s' -> sdone s' ->
+    seen s' = map (fun m => (m, val m)) (sends evs).
+  Proof. exact (lookups_schedule_independent look val cap t0 evs s'). Qed.
+
+  (* ... and the reader stage then IS the Kahn stage that uses [val m]: the pipeline theorems above apply to it *)
+  Theorem C13_reader_is_kahn_stage {St} (rstep : V -> St -> msg -> St * list msg) rflush rerr
+      cap t0 (evs : list (@ev msg tbl)) (s' : @sst msg tbl V) s0 :
+    published_before_sent look val t0 evs ->
+    ssteps look cap (sinit t0 evs) s' -> sdone s' ->
+    reader_fold rstep rflush s0 (seen s') = run (reader_stage val rstep rflush rerr s0) s0 (sends evs).
+  Proof. exact (reader_is_kahn_stage look val rstep rflush rerr cap t0 evs s' s0). Qed.
+
+  (* the side condition is needed: a message handed over before the view that answers its look-up is published is seen
+     with the old answer through a rendezvous channel and with the new one through a channel of capacity 1 (the behaviour
+     class of seeded change C13-4: older buffered lifecycles published only after the final flush) *)
+  Theorem C13_unpublished_send_schedule_dependent t0 t1 (m : msg) :
+    look t0 m <> look t1 m ->
+    exists s1 s2 : @sst msg tbl V,
+      ssteps look 0 (sinit t0 [ESend m; EPub t1]) s1 /\ sdone s1 /\
+      ssteps look 1 (sinit t0 [ESend m; EPub t1]) s2 /\ sdone s2 /\
+      seen s1 <> seen s2.
+  Proof. exact (unpublished_send_schedule_dependent look t0 t1 m). Qed.
+
+  (* the interleaving interpreter used by the correspondence check computes executions of [sstep] *)
+  Theorem C13_shared_exec_sound cap fuel sched (s : @sst msg tbl V) : ssteps look cap s (srun look fuel cap sched s).
+  Proof. exact (srun_sound look cap fuel sched s). Qed.
+End SharedStatements.
+
+(* non-vacuity: two lifecycles published before their messages, a third view at the end; through capacity 0 and 2 with
+   different interleavings the reader sees the same *)
+Example C13_shared_nonvacuous :
+  let look := fun (t : list nat) (m : nat) => existsb (Nat.eqb m) t in
+  let evs := [EPub [1]; ESend 1; ESend 1; EPub [1; 2]; ESend 2; ESend 1; EPub [1; 2; 3]]%nat in
+  published_before_sent look (fun _ => true) [] evs /\
+  seen (srun look 30 0 [0; 1; 1; 0]%nat (sinit [] evs)) = seen (srun look 30 2 [0; 0; 0; 1; 0; 0; 1]%nat (sinit [] evs)) /\
+  map snd (seen (srun look 30 0 [] (sinit [] evs))) = [true; true; true; true].
+Proof. cbv zeta. split; [|split; vm_compute; reflexivity]. cbn. repeat split; repeat constructor. Qed.
+
 (* instances: the miniature sort is a permutation stage, the filter and the pass-through are congruent *)
 Lemma C13_inst_sort w : perm_stage (st_sort w).
 Proof. exact (st_sort_perm_stage w). Qed.
@@ -277,3 +330,8 @@ Print Assumptions C13_guarded_bottom_same_while_outflow_works.
 Print Assumptions C13_guarded_bottom_pulls_everything.
 Print Assumptions C13_coded_bottom_returns_at_once.
 Print Assumptions C13_loss_nonvacuous.
+Print Assumptions C13_lookups_schedule_independent.
+Print Assumptions C13_reader_is_kahn_stage.
+Print Assumptions C13_unpublished_send_schedule_dependent.
+Print Assumptions C13_shared_exec_sound.
+Print Assumptions C13_shared_nonvacuous.
